@@ -53,13 +53,15 @@ def main(argv=None):
     # order unknown failing cases: lowest level, then shortest case  -> first printed is the simplest
     unknown.sort(key=lambda fc: (fc['level'], len(lib.jkey(fc['case']))))
     seen_clauses = set()
+    attempts = 0
     vdir = os.path.join(os.environ.get('VERIF_VIOLATIONS_DIR') or os.path.join(ROOT, 'violations'), prop)
     for fc in unknown:
         clause = fc['failures'][0]['clause']
         if clause in seen_clauses and len(violations) >= 3:
             continue
-        if len(violations) >= 8:
-            break
+        if len(violations) >= 8 or attempts >= 12:
+            break       # every attempt costs up to four fresh-process replays; the rest stays counted as unknown failures
+        attempts += 1
         seen_clauses.add(clause)
         os.makedirs(vdir, exist_ok=True)
         path = os.path.join(vdir, lib.sha(fc['case']) + '.json')
